@@ -104,9 +104,11 @@ def check_readers(ctx):
               "iterator:sequence", it.name, it.loc, "the iterator's sequence is read in the capture section",
               "iterator sequence comes from %s" % [key(x["rhs"]) for x in ls])
     ist = one_call(ctx, it, "ldb_istate_create")[0][2]
-    ctx.check([argkey(ist, k) for k in range(4)] == ["&db->mutex", "db->mem", "db->imm", "db->versions->current"],
+    from ..rules import value_source
+    pins = [argkey(ist, 0)] + [value_source(it, ist["a"][k]) for k in range(1, 4)]
+    ctx.check(pins == ["&db->mutex", "db->mem", "db->imm", "db->versions->current"],
               "T6-capture-identity", "iterator:pins", it.name, site(it, ist),
-              "the cleanup state releases exactly the pinned objects", "istate built from %s" % [argkey(ist, k) for k in range(4)])
+              "the cleanup state releases exactly the pinned objects", "istate built from %s" % pins)
     sp = ctx.fn("ldb_snapshot", DB)
     one_section(ctx, "T3d-capture-section", "ldb_snapshot", sp,
                 lambda e: _reads("last_sequence", "versions")(e) or is_call(e, "ldb_snaplist_new"),
